@@ -289,8 +289,9 @@ def classify(ctx, behs, verdicts):
         n += 1
         points += v.get("points", 0)
         cfg = b["steps"][0]
-        ops = tuple(s["op"] + str(s.get("v", "")) for s in b["steps"][1:])
-        ctx.distinct.add(hash((cfg["mode"], cfg["tab"], tuple(cfg["bounds"]), cfg["mm"], tuple(cfg["readers"]), ops)))
+        ops = tuple(tuple(sorted((k, x) for k, x in s.items() if k not in ("exp", "alts", "pts"))) for s in b["steps"][1:])
+        if v.get("points", 0) > 0 and any(s.get("op") in ("agg", "rec") for s in b["steps"]):
+            ctx.distinct.add(hash((cfg["mode"], cfg["tab"], tuple(cfg["bounds"]), cfg["mm"], tuple(cfg["readers"]), ops)))
         rep = {"behaviour": dict(b, cseed=v.get("cseed")), "verdict": v}
         if not v["ok"]:
             if len(ctx.violations) >= MAX_REPORTS:
@@ -346,7 +347,7 @@ def run(ctx):
     ]
     ctx.extra["rule"] = ("states/transitions: TLC on Histogram.tla (ideal spec, all clause invariants). traces_validated: TLC-generated behaviours "
                          "(witnesses + all behaviours of a small depth + seeded random walks) replayed step by step on the real aggregations / MeterProvider+readers; "
-                         "evaluations = points compared; distinct_nontrivial = distinct (mode, table, boundaries, min/max, readers, op/value sequence)")
+                         "evaluations = points compared; distinct_nontrivial = distinct (mode, table, boundaries, min/max, readers, full operation sequence) that record at least one value and compare at least one point")
     exe = build.harness("c07_hist", ["c07_hist.cc"], "asan")
     ndef, dvals = default_shape(exe)
     ctx.extra["default_boundaries_of_real_code"] = dvals
